@@ -143,6 +143,19 @@ fn specific(d: &mut Drv) {
     d.call("v_side", || tri("determine_side"), || ev(vr.determine_side(vp, vq)));
     d.call("v_side", || tri("signed_triangle_area"), || ev(Vec2::signed_triangle_area(vp, vq, vr)));
     d.call("v_side", || tri("triangle_area"), || ev(Vec2::triangle_area(vp, vq, vr)));
+    // integer element types: the area is exact whenever it is an integer (odd products included)
+    for _ in 0..4 {
+        let g = |d: &mut Drv| -> [i64; 2] { [d.rng.gen_range(-7..=7), d.rng.gen_range(-7..=7)] };
+        let (a, b, c) = (g(d), g(d), g(d));
+        let ti = |how: &str, ty: &str| json!({"how": how, "ty": ty, "a": a, "b": b, "c": c});
+        let (a32, b32, c32) = (Vec2::new(a[0] as i32, a[1] as i32), Vec2::new(b[0] as i32, b[1] as i32), Vec2::new(c[0] as i32, c[1] as i32));
+        let (a64, b64, c64) = (Vec2::new(a[0], a[1]), Vec2::new(b[0], b[1]), Vec2::new(c[0], c[1]));
+        d.call("v_side_i", || ti("determine_side", "i32"), || json!(c32.determine_side(a32, b32)));
+        d.call("v_side_i", || ti("signed_triangle_area", "i32"), || json!(Vec2::signed_triangle_area(a32, b32, c32)));
+        d.call("v_side_i", || ti("triangle_area", "i32"), || json!(Vec2::triangle_area(a32, b32, c32)));
+        d.call("v_side_i", || ti("signed_triangle_area", "i64"), || json!(Vec2::signed_triangle_area(a64, b64, c64)));
+        d.call("v_side_i", || ti("triangle_area", "i64"), || json!(Vec2::triangle_area(a64, b64, c64)));
+    }
     // collinear points: zero area
     let m: Vec<Q> = vec![p[0] + (q[0] - p[0]) * Q::int(2), p[1] + (q[1] - p[1]) * Q::int(2)];
     d.call("v_side", || json!({"how": "determine_side", "a": evs(&p), "b": evs(&q), "c": evs(&m)}), || ev(Vec2::new(m[0], m[1]).determine_side(vp, vq)));
